@@ -54,7 +54,7 @@ MANIFEST = dict(
     note='Partial: lognormal integral only numerically; IEEE rounding validated, not proved; mixedloglikelihood (Monte-Carlo) only by an oracle (log of a draw-independent '
     'probability) and the shape log(MonteCarlo(P)); boxcox with a Python float exponent (constant-folded, reflected comparisons) is tied by value only. The shared engine model '
     'multiplies 0 * NaN = NaN where the real engine (bioExprTimes.cc) returns 0 for a zero left operand: rows with a logarithm of a negative number under a zero factor '
-    '(lognormalpdf at x < 0) are tied three-way (engine, tree with the real Times semantics, closed form) and tallied. Known finding FC17c: normalpdf / uniformpdf raise when a '
+    '(lognormalpdf at x < 0) are tied three-way (engine, tree with the real Times semantics, closed form) and tallied. Finding FC17c (found by this check, repaired in /repo by a7d78a2): normalpdf / uniformpdf raise when a '
     'parameter is a data variable. FC17a / FC17b / F05 / F06 are fixed in the repository (their theorems about the former code are kept as documentation).',
 )
 
